@@ -12,7 +12,7 @@ import time
 
 import numpy as np
 
-from ..harness import T, sig_of, snapshot, gradof, set_grad
+from ..harness import T, sig_of, snapshot, gradof, set_grad, children_of
 from ..symnum import engine as E
 from ..symnum import scalar as sc
 from ..symnum import diff
@@ -67,7 +67,6 @@ class StepCase:
 
     def run(self, env):
         Tn = T()
-        tm = __import__("vf.common", fromlist=["x"]).tensor_mod()
         sp = self.spec
         out = E.Outcome()
         a_arr, b_arr = env.arr("a", SHAPE), env.arr("b", SHAPE)
@@ -133,7 +132,7 @@ def _reaches(root, t):
         if id(x) in seen:
             continue
         seen.add(id(x))
-        st.extend(x._children)
+        st.extend(children_of(x))
     return False
 
 
@@ -149,9 +148,9 @@ class HistCase:
         self.sig = sig_of("history", spec, None)
 
     def run(self, env):
+        import synapgrad
         from synapgrad import nn, optim
         Tn = T()
-        tm = __import__("vf.common", fromlist=["x"]).tensor_mod()
         out = E.Outcome()
         a_arr, b_arr = env.arr("a", SHAPE), env.arr("b", SHAPE)
         a = nn.Parameter(_leaf(Tn, a_arr, self.spec.get("computed_leaf")))
@@ -169,7 +168,6 @@ class HistCase:
         reg = []                               # every non-leaf tensor created so far
         ctx_stack = []
         ng = 0
-        prev_flag = tm.retain_grads__
         try:
             for step, act in enumerate(self.spec["history"]):
                 if act in ("B0", "B1"):
@@ -209,7 +207,7 @@ class HistCase:
                         return out
                     reg[i].retain_grad()
                 elif act == "E":
-                    c = tm.retain_grads()
+                    c = synapgrad.retain_grads()
                     c.__enter__()
                     ctx_stack.append(c)
                 elif act == "X":
@@ -242,7 +240,6 @@ class HistCase:
         finally:
             while ctx_stack:
                 ctx_stack.pop().__exit__(None, None, None)
-            tm.retain_grads__ = prev_flag
         out.notes["obs:grad_a"] = gradof(a) if gradof(a) is not None else np.zeros(0)
         out.notes["obs:grad_b"] = gradof(b) if gradof(b) is not None else np.zeros(0)
         return out
